@@ -26,7 +26,7 @@ def hier_config(rng, **over):
         "orphan_instance": rng.random() < 0.3,
         "lsb": rng.choice([0, 0, 1, -2, 5]),
         "unnamed": 0.0,
-        "name_style": "unique",
+        "name_style": rng.choice(["unique", "unique", "scoped"]),
         "array_rate": rng.choice([0.0, 0.3]),
     }
     cfg.update(over)
